@@ -156,6 +156,7 @@ Directed == {
   DS("tars_req",    "sbuffer-length-as-int16",   "7d00000c",         "7d00017f"),
   DS("tars_resp",   "sbuffer-length-as-int32",   "6d00000c",         "6d00020c"),
   DS("tars_resp",   "sbuffer-length-negative",   "6d00000c",         "6d0000ff"),
+  DS("tars_resp",   "sbuffer-list-negative-length", "6d00000c",      "69009f0c"),
   DS("tars_resp",   "map-head-instead-of-string", "86026f6b",        "98026f6b"),
   DS("tars_req",    "servant-string4-2g",        "56087376632e",     "577fffffff2e")
 }
